@@ -57,6 +57,15 @@ func (lb *loadBalancer) Remove(u Upstream) bool {
 	return len(lb.upstreams) == 0
 }
 
+func (lb *loadBalancer) Contains(u Upstream) bool {
+	for _, upstream := range lb.upstreams {
+		if upstream == u {
+			return true
+		}
+	}
+	return false
+}
+
 func (lb *loadBalancer) Next() Upstream {
 	if len(lb.upstreams) == 0 {
 		return nil
@@ -137,6 +146,12 @@ func (m *LoadBalancedManager) RemoveConn(u Upstream) {
 
 	lb, ok := m.localUpstreams[u.EndpointID()]
 	if !ok {
+		return
+	}
+	// The upstream may have already been removed (such as removed by the
+	// proxy after a go-away, then again when the connection closes), so only
+	// update the cluster if the upstream was still registered.
+	if !lb.Contains(u) {
 		return
 	}
 	if lb.Remove(u) {
